@@ -230,3 +230,81 @@ pub mod panics {
         v[i - 1]
     }
 }
+
+pub mod timescale {
+    //! C02 / C03 / C10 controls: a copy of the time scale with
+    //!  * the fold of a reversing cycle at 0.4 instead of one half (C03/R2)
+    //!  * no hold at the end of a pass on exact cycle multiples (C02/R2)
+    //!  * `is_repeating` computed with `>` (C10/R3)
+    //!  * total duration that ignores the delay (C03/R4)
+    use mina_core::timeline::Repeat;
+
+    pub struct CtlTimeScale {
+        delay: f32,
+        duration: f32,
+        repeat: Repeat,
+        reverse: bool,
+    }
+
+    pub enum CtlPosition {
+        NotStarted,
+        Active(f32, CtlLoopState),
+        Ended(f32),
+    }
+
+    pub struct CtlLoopState {
+        pub is_repeating: bool,
+        pub is_reversing: bool,
+    }
+
+    impl CtlTimeScale {
+        pub fn get_duration(&self) -> f32 {
+            if self.repeat == Repeat::Infinite {
+                f32::INFINITY
+            } else {
+                // control: the delay is not part of the reported duration
+                self.duration * (repeat_ordinal(&self.repeat) as u64 + 1) as f32
+            }
+        }
+
+        pub fn get_position(&self, time: f32) -> CtlPosition {
+            let time = time - self.delay;
+            if time < 0.0 {
+                return CtlPosition::NotStarted;
+            }
+            let (cycle_time, is_repeating) = match self.repeat {
+                Repeat::None if time > self.duration => return self.position_ended(),
+                Repeat::None => (time, false),
+                Repeat::Times(times) if time > self.duration * (times as u64 + 1) as f32 => {
+                    return self.position_ended();
+                }
+                Repeat::Times(_) | Repeat::Infinite => {
+                    // control: no hold rule, and `>` instead of `>=`
+                    let (quot, rem) = (time / self.duration, time % self.duration);
+                    (rem, quot > 1.0)
+                }
+            };
+            let cycle_ratio = cycle_time / self.duration;
+            let (normalized_time, is_reversing) = match self.reverse {
+                // control: fold at 0.4
+                true if cycle_ratio > 0.4 => ((1.0 - cycle_ratio) * 2.0, true),
+                true => (cycle_ratio * 2.0, false),
+                false => (cycle_ratio, false),
+            };
+            CtlPosition::Active(normalized_time, CtlLoopState { is_repeating, is_reversing })
+        }
+
+        fn position_ended(&self) -> CtlPosition {
+            // control: a reversing timeline ends at 1.0 as well
+            CtlPosition::Ended(1.0)
+        }
+    }
+
+    fn repeat_ordinal(r: &Repeat) -> u32 {
+        match r {
+            Repeat::None => 0,
+            Repeat::Times(value) => *value,
+            Repeat::Infinite => u32::MAX,
+        }
+    }
+}
